@@ -76,7 +76,7 @@ theorem bitsLE_getD (n k m : ℕ) (h : k < n) : (bitsLE n m).getD k false = (m /
 /-- `ToBinary` with a width that cannot wrap: the only accepted bits are those of `v.val` -/
 theorem toBinary_iff [Fact p.Prime] (v : ZMod p) (n : ℕ) (hn : 2 ^ n ≤ p) (k : List (ZMod p) → Prop) :
     (toBinary v n : SatM p _) k ↔ v.val < 2 ^ n ∧ k ((bitsLE n v.val).map embed) := by
-  haveI : NeZero p := ⟨(Fact.out : p.Prime).ne_zero⟩
+  have : NeZero p := ⟨(Fact.out : p.Prime).ne_zero⟩
   rw [toBinary_def]
   constructor
   · rintro ⟨bits, hl, hb, hr, hk⟩
@@ -105,7 +105,7 @@ include hH
 
 theorem proofRound_iff (d h s : ZMod p) (k : ZMod p → Prop) :
     (proofRound hash2 d h s) k ↔ ∃ b : Bool, d = embed b ∧ k (if b then H h s else H s h) := by
-  simp only [proofRound, bind_pure_comp, SatM.bind_apply, assertBool_iff, select_iff, hH]
+  simp only [proofRound, SatM.bind_apply, assertBool_iff, select_iff, hH]
   constructor
   · rintro ⟨hd, -, -, hk⟩
     obtain ⟨b, rfl⟩ := (isBool_iff_embed d).mp hd
